@@ -384,6 +384,42 @@ SYNTH_STATIC = {
         return;
     }
 }''',
+    '__opt_map': '''fn __opt_map(_1: Option, _2: F) -> Option {
+    bb0: {
+        _3 = discriminant(_1);
+        switchInt(move _3) -> [0: bb1, otherwise: bb2];
+    }
+    bb1: {
+        _0 = Option::<T>::None;
+        return;
+    }
+    bb2: {
+        _4 = move ((_1 as Some).0: E);
+        _5 = __call_value(move _2, move _4) -> [return: bb3, unwind continue];
+    }
+    bb3: {
+        _0 = Option::<T>::Some(move _5);
+        return;
+    }
+}''',
+    '__ok_or_else': '''fn __ok_or_else(_1: Option, _2: F) -> Result {
+    bb0: {
+        _3 = discriminant(_1);
+        switchInt(move _3) -> [0: bb2, otherwise: bb1];
+    }
+    bb1: {
+        _4 = move ((_1 as Some).0: E);
+        _0 = Result::<T, F>::Ok(move _4);
+        return;
+    }
+    bb2: {
+        _5 = __call_value(move _2) -> [return: bb3, unwind continue];
+    }
+    bb3: {
+        _0 = Result::<T, F>::Err(move _5);
+        return;
+    }
+}''',
     # next() of FilterMap / Map / Cloned adaptors
     '__filter_map_next': '''fn __filter_map_next(_1: &mut I) -> Option {
     bb0: {
@@ -698,6 +734,13 @@ def model(ex, st, c, args):
         if r.variant != 0:
             raise Panic('called `Result::unwrap()` on an `Err` value')
         return r.fields[0]
+    if c == 'Option::map':
+        return ('BODY', synth_static(ex, '__opt_map'), args)
+    if c == 'Option::ok_or_else':
+        return ('BODY', synth_static(ex, '__ok_or_else'), args)
+    if c == 'Option::ok_or':
+        o = args[0]
+        return ok(o.fields[0]) if o.variant == 1 else err(args[1])
     if c == 'Result::map':
         return ('BODY', synth_static(ex, '__map_ok'), args)
     if c == 'Result::map_err':
@@ -777,8 +820,14 @@ def model(ex, st, c, args):
         return Ref(r.cell, list(r.path) + [('index', k)])
     if re.fullmatch(r'<\[.*\] as Index<std::ops::RangeFrom<usize>>>::index', c):
         v = D(args[0])
-        k = ex.concrete_int(args[1].fields[0])
-        if k > len(v.items):
+        i = args[1].fields[0]
+        n = len(v.items)
+        t = z3.simplify(i.t)
+        if z3.is_bv_value(t):
+            k = t.as_long() if t.as_long() <= n else 'panic'
+        else:
+            k = B([(i.t == bv(j, 64), j) for j in range(n + 1)] + [(z3.UGT(i.t, bv(n, 64)), 'panic')])
+        if k == 'panic':
             raise Panic('range start index out of range for slice')
         return Ref(st.new_cell(VecV(v.items[k:])), [])
     m = re.fullmatch(r'core::slice::<impl \[.*\]>::(\w+)', c)
@@ -979,7 +1028,7 @@ def model(ex, st, c, args):
         else:
             out = SStr([Opaque(kind, (SStr(s.items),))])
         return Ref(st.new_cell(out), []) if kind == 'trim' else out
-    if re.fullmatch(r'<(std::string::String|str) as Index<std::ops::Range<usize>>>::index', c):
+    if c == 'core::str::<impl str>::get' or re.fullmatch(r'<(std::string::String|str) as Index<std::ops::Range<usize>>>::index', c):
         s = to_sstr(ex, args[0])
         rng = args[1]
         start, end = rng.fields[0], rng.fields[1]
@@ -995,6 +1044,10 @@ def model(ex, st, c, args):
                 opts.append((z3.And(start.t == pref[i], end.t == pref[j]), (i, j)))
         opts.append((z3.Not(z3.Or(*[o[0] for o in opts])), 'panic'))
         t = B(opts)
+        if c.endswith('::get'):
+            if t == 'panic':
+                return none()
+            return some(Ref(st.new_cell(SStr(s.items[t[0]:t[1]])), []))
         if t == 'panic':
             raise Panic('byte index is not a char boundary / out of range in str slice')
         return Ref(st.new_cell(SStr(s.items[t[0]:t[1]])), [])
@@ -1051,6 +1104,17 @@ def model(ex, st, c, args):
         return display_into(ex, st, args[0], args[1])
     if c == '<std::string::String as Debug>::fmt' or re.fullmatch(r'<.* as (std::fmt::)?Debug>::fmt', c):
         tgt = D(args[0])
+        if isinstance(tgt, SStr):
+            # Debug of a string: quote + escaped body + quote; the body is exact when no character needs escaping
+            py = tgt.concrete()
+            buf = fmt_buf(ex, args[1])
+            buf.items.append(mkchar('"'))
+            if py is not None and all(32 <= ord(ch) < 127 and ch not in '"\\' for ch in py):
+                buf.items.extend(tgt.items)
+            else:
+                buf.items.append(Opaque('debug_str_body', (SStr(tgt.items),)))
+            buf.items.append(mkchar('"'))
+            return ok(mkunit())
         if isinstance(tgt, Adt) and tgt.ty in ('Value', 'Operator', 'Token', 'PartialToken', 'Node', 'EvalexprError', 'Function',
                                                'HashMapContext', 'EmptyContext', 'EmptyContextWithBuiltinFunctions', 'ValueType',
                                                'DefaultNumericTypes'):
@@ -1382,8 +1446,17 @@ def parse_f64_value(ex, s):
     return Fl(f(*[c.t for c in s.items]))
 
 
+FLOAT_CHARS = set('0123456789+-.eEinfatyINFATY')
+
+
 def parse_f64_model(ex, st, s):
     if not s.is_plain():
+        # a string containing a character that occurs in no float literal is rejected whatever the opaque segments render to
+        for c in s.items:
+            if isinstance(c, Int):
+                t = z3.simplify(c.t)
+                if z3.is_bv_value(t) and chr(t.as_long()) not in FLOAT_CHARS:
+                    return err(Opaque('ParseFloatError', ()))
         raise Unsupported('float parse of a string with an opaque segment')
     acc = f64_accepts([c.t for c in s.items])
     t = ex.branch(st, [(acc, 'ok'), (z3.Not(acc), 'err')])
